@@ -3,7 +3,7 @@ M15 — RESPONSE ENCODING: what `ResponseMessage.write(stream, kmip_version)` em
 composed, as an M1 item tree (`Kmip.TTLV.Item`), per protocol version (10, 11, 12, 13, 14, 20).
 Transcribed from /repo as it is:
 
-  kmip/core/messages/messages.py      ResponseMessage.write l.551-566, ResponseHeader.write l.219-247,
+  kmip/core/messages/messages.py      ResponseMessage.write l.551-565, ResponseHeader.write l.219-247,
                                       ResponseBatchItem.write l.443-474  (-> `Envelope.buildResponse`, reused)
   kmip/core/messages/payloads/*.py    the `write()` of the 21 RESPONSE payloads the engine builds
   kmip/core/objects.py                Attribute.write, Attributes.write, convert_template_attribute_to_attributes,
@@ -18,7 +18,7 @@ Transcribed from /repo as it is:
 
 The input is the engine model's abstraction of a result (`Data`, exactly what `harness/lib/impl_engine.py:data_of`
 extracts from a real response payload).  `none` = `write` raises (a mandatory field is absent: the session then
-answers General Failure, session.py l.238-252, C12 `unencodable_response_answered`).
+answers General Failure, session.py l.238-255, C12 `unencodable_response_answered`).
 
 What `Data` does not carry and IS on the wire is an explicit argument `extra` (a list of already-built items the
 harness takes from the real response; "oracle subtree"):
@@ -95,7 +95,7 @@ def encValue (tag : Nat) (name : String) : AVal → Option TItem
   | .appInfo ns d => some (.struct tag [txt T.applicationNamespace ns, txt T.applicationData d])
   | .other => none
 
-/-- objects.py Attribute.write l.125-139 (KMIP 1.x): Attribute Name, [Attribute Index], Attribute Value.
+/-- objects.py Attribute.write l.125-136 (KMIP 1.x): Attribute Name, [Attribute Index], Attribute Value.
 No version test: what may be sent under a version is the engine's business (`getAttrsStep`, C16). -/
 def encAttr1x (a : TAttr) : Option TItem :=
   match encValue T.attributeValue a.name a.value with
@@ -106,8 +106,8 @@ def encAttr1x (a : TAttr) : Option TItem :=
 def isAttribute20 (tag : Nat) : Bool := ((attributeTags.lookup 20).getD []).contains tag
 
 /-- one element of the KMIP 2.0 `Attributes` structure: objects.py `convert_template_attribute_to_attributes`
-l.6011-6050 (`enums.convert_attribute_name_to_tag` raises ValueError for an unknown name; the value object is
-re-tagged) and Attributes.write l.888-924 (`is_attribute(tag, kmip_version)` or AttributeNotSupported) -/
+l.3570-3593 (`enums.convert_attribute_name_to_tag` raises ValueError for an unknown name; the value object is
+re-tagged) and Attributes.write l.888-927 (`is_attribute(tag, kmip_version)` or AttributeNotSupported) -/
 def encAttr20 (a : TAttr) : Option TItem :=
   match attributeNameTags.lookup a.name with
   | none => none
@@ -124,22 +124,22 @@ def mapO {α β} (f : α → Option β) : List α → Option (List β)
 
 def isKwd (i : TItem) : Bool := tagOfItem i == T.keyWrappingData
 
-/-- objects.py KeyBlock.write l.4128-4158 as `SecretFactory._build_key_block` fills it: Key Format Type, (no Key
-Compression Type,) Key Value { Key Material } (KeyValue.write l.3989-4003: the server never attaches attributes),
+/-- objects.py KeyBlock.write l.2207-2239 as `SecretFactory._build_key_block` fills it: Key Format Type, (no Key
+Compression Type,) Key Value { Key Material } (KeyValue.write l.2343-2353: the server never attaches attributes),
 [Cryptographic Algorithm], [Cryptographic Length], [Key Wrapping Data] -/
 def encKeyBlock (format : Nat) (value : Bytes) (alg len : Option Nat) (kwd : List TItem) : TItem :=
   .struct T.keyBlock ([enm T.keyFormatType format, .struct T.keyValue [byt T.keyMaterial value]]
     ++ optL alg (enm T.cryptographicAlgorithm) ++ optL len (fun (l : Nat) => int T.cryptographicLength (Int.ofNat l)) ++ kwd)
 
-/-- the `secret` of a Get response (engine.py `_build_core_object` l.477-555, secrets.py) -/
+/-- the `secret` of a Get response (engine.py `_build_core_object` l.477-551, secrets.py) -/
 def encSecret (otype : Nat) (value : Bytes) (alg len format subtype : Option Nat) (wrapped : Bool)
     (extra : List TItem) : Option TItem :=
   let kwd := if wrapped then extra.filter isKwd else []
   if otype == OT.certificate then
-    -- Certificate.write l.98-108: Certificate Type, Certificate Value
+    -- Certificate.write l.99-117: Certificate Type, Certificate Value
     subtype.map (fun st => .struct T.certificate_ [enm T.certificateType st, byt T.certificateValue value])
   else if otype == OT.opaqueData then
-    -- OpaqueObject.write l.1001-1012: Opaque Data Type, Opaque Data Value
+    -- OpaqueObject.write l.758-767: Opaque Data Type, Opaque Data Value
     subtype.map (fun st => .struct T.opaqueObject [enm T.opaqueDataType st, byt T.opaqueDataValue value])
   else if otype == OT.symmetricKey then
     format.map (fun f => .struct T.symmetricKey [encKeyBlock f value alg len kwd])
@@ -148,10 +148,10 @@ def encSecret (otype : Nat) (value : Bytes) (alg len format subtype : Option Nat
   else if otype == OT.privateKey then
     format.map (fun f => .struct T.privateKey [encKeyBlock f value alg len kwd])
   else if otype == OT.splitKey then
-    -- SplitKey.write l.606-686: the five split-key fields (oracle subtree), then the Key Block
+    -- SplitKey.write l.494-571: the five split-key fields (oracle subtree), then the Key Block
     format.map (fun f => .struct T.splitKey (extra.filter (fun i => !isKwd i) ++ [encKeyBlock f value alg len kwd]))
   else if otype == OT.secretData then
-    -- SecretData.write l.920-931: Secret Data Type, Key Block
+    -- SecretData.write l.703-712: Secret Data Type, Key Block
     match format, subtype with
     | some f, some st => some (.struct T.secretData [enm T.secretDataType st, encKeyBlock f value alg len kwd])
     | _, _ => none
@@ -159,13 +159,13 @@ def encSecret (otype : Nat) (value : Bytes) (alg len format subtype : Option Nat
 
 /-! ### response payloads -/
 
-/-- engine.py `_process_query` l.2949-2952: `"PyKMIP {0} Software Server".format(kmip.__version__)`; a constant
+/-- engine.py `_process_query` (QUERY_SERVER_INFORMATION branch): `"PyKMIP {0} Software Server".format(kmip.__version__)`; a constant
 of the server (pinned by the byte-equality check of every Query response that asks for server information) -/
 def vendorIdentification : String := "PyKMIP 0.11.0.dev1 Software Server"
 
 def uidItem (u : String) : TItem := txt T.uniqueIdentifier u
 
-/-- operations whose response payload is the Unique Identifier alone: Register (register.py l.494-526: the
+/-- operations whose response payload is the Unique Identifier alone: Register (register.py l.500-539: the
 template attribute is never set by the engine), DeriveKey (derive_key.py), Activate / Revoke / Destroy -/
 def uidOnlyOps : List Nat := [Op.register, Op.deriveKey, Op.activate, Op.revoke, Op.destroy]
 
@@ -176,7 +176,7 @@ def cryptoTag (op : Nat) : Option Nat :=
   else if op == Op.mac then some T.macData
   else none
 
-/-- Encrypt only (encrypt.py l.547-585): IV/Counter/Nonce when the backend returned one, the Authenticated
+/-- Encrypt only (encrypt.py l.542-593): IV/Counter/Nonce when the backend returned one, the Authenticated
 Encryption Tag from KMIP 1.4 on -/
 def encryptExtra (ver op : Nat) (extra : List TItem) : List TItem :=
   if op == Op.encrypt then
@@ -187,14 +187,14 @@ def encryptExtra (ver op : Nat) (extra : List TItem) : List TItem :=
 /-- **The children of the Response Payload** for operation `op` answered with `d` under protocol version `ver`. -/
 def encData (ver op : Nat) (extra : List TItem) : Data → Option (List TItem)
   | .uid u =>
-    -- create.py l.441-487: Object Type, Unique Identifier (template attribute: None)
+    -- create.py l.470-517: Object Type, Unique Identifier (template attribute: None)
     if op == Op.create then some [enm T.objectType OT.symmetricKey, uidItem u]
     else if uidOnlyOps.contains op then some [uidItem u]
-    -- set_attribute.py l.306-336: VersionNotSupported below KMIP 2.0
+    -- set_attribute.py l.329-373: VersionNotSupported below KMIP 2.0
     else if op == Op.setAttribute then (if ver ≥ 20 then some [uidItem u] else none)
     else none
   | .uidAttr u a =>
-    -- modify_attribute.py l.456-497 / delete_attribute.py l.420-461: the attribute below 2.0 (InvalidField when
+    -- modify_attribute.py l.436-480 / delete_attribute.py l.491-538: the attribute below 2.0 (InvalidField when
     -- it is missing), the identifier alone from 2.0 on
     if op == Op.modifyAttribute || op == Op.deleteAttribute then
       if ver < 20 then
@@ -204,15 +204,15 @@ def encData (ver op : Nat) (extra : List TItem) : Data → Option (List TItem)
       else some [uidItem u]
     else none
   | .keyPair priv pub =>
-    -- create_key_pair.py l.535-592: private, public; template attributes never set
+    -- create_key_pair.py l.740-797: private, public; template attributes never set
     if op == Op.createKeyPair then
       some [txt T.privateKeyUniqueIdentifier priv, txt T.publicKeyUniqueIdentifier pub]
     else none
   | .uids us =>
-    -- locate.py l.419-446: Located Items never set by the engine; the identifiers
+    -- locate.py l.485-513: Located Items never set by the engine; the identifiers
     if op == Op.locate then some (us.map uidItem) else none
   | .object otype u value alg len format subtype wrapped =>
-    -- get.py l.468-509: Object Type, Unique Identifier, the secret
+    -- get.py l.469-512: Object Type, Unique Identifier, the secret
     if op == Op.get then
       match unhex value with
       | none => none
@@ -222,7 +222,7 @@ def encData (ver op : Nat) (extra : List TItem) : Data → Option (List TItem)
         | none => none
     else none
   | .attrs u as =>
-    -- get_attributes.py l.470-528: Attribute* below 2.0; from 2.0 on one Attributes structure, InvalidField when
+    -- get_attributes.py l.401-451: Attribute* below 2.0; from 2.0 on one Attributes structure, InvalidField when
     -- the list is empty
     if op == Op.getAttributes then
       if ver < 20 then (mapO encAttr1x as).map (fun xs => uidItem u :: xs)
@@ -230,7 +230,7 @@ def encData (ver op : Nat) (extra : List TItem) : Data → Option (List TItem)
       else (mapO encAttr20 as).map (fun xs => [uidItem u, .struct T.attributes_ xs])
     else none
   | .names u ns =>
-    -- get_attribute_list.py l.383-440: InvalidField when there is no name; Attribute Name below 2.0, from 2.0 on an
+    -- get_attribute_list.py l.333-401: InvalidField when there is no name; Attribute Name below 2.0, from 2.0 on an
     -- Enumeration tagged Attribute Reference whose value is the attribute's tag
     if op == Op.getAttributeList then
       if ns.isEmpty then none
@@ -238,12 +238,12 @@ def encData (ver op : Nat) (extra : List TItem) : Data → Option (List TItem)
       else (mapO (fun n => (attributeNameTags.lookup n).map (enm T.attributeReference)) ns).map (fun xs => uidItem u :: xs)
     else none
   | .ops os vendor =>
-    -- query.py l.1137-1262 with what `_process_query` fills in: Operation*, [Vendor Identification]
+    -- query.py l.886-993 with what `_process_query` fills in: Operation*, [Vendor Identification]
     if op == Op.query then
       some (os.map (enm T.operation_) ++ (if vendor then [txt T.vendorIdentification vendorIdentification] else []))
     else none
   | .versions vs =>
-    -- discover_versions.py l.143-156: Protocol Version*
+    -- discover_versions.py l.110-121: Protocol Version*
     if op == Op.discoverVersions then
       some (vs.map (fun v => .struct T.protocolVersion
         [int T.protocolVersionMajor (verPair v).1, int T.protocolVersionMinor (verPair v).2]))
@@ -251,12 +251,12 @@ def encData (ver op : Nat) (extra : List TItem) : Data → Option (List TItem)
   | .crypto u c =>
     match c with
     | .ok t =>
-      -- encrypt.py / decrypt.py (Data), sign.py (Signature Data), mac.py (MAC Data)
+      -- encrypt.py l.542-593 / decrypt.py l.509-547 (Data), sign.py l.354-395 (Signature Data), mac.py l.200-220 (MAC Data)
       match cryptoTag op, unhex t with
       | some tag, some b => some ([uidItem u, byt tag b] ++ encryptExtra ver op extra)
       | _, _ => none
     | .verdict b =>
-      -- signature_verify.py l.683-724: Validity Indicator (Valid 1 / Invalid 2)
+      -- signature_verify.py l.629-678: Validity Indicator (Valid 1 / Invalid 2)
       if op == Op.signatureVerify then some [uidItem u, enm T.validityIndicator (if b then 1 else 2)] else none
     | _ => none
 
